@@ -14,6 +14,37 @@ TAG_G = {'row_tag', 'g_row_tag', 'irow_tag', 'g_irow_tag', 'sm_i_row_tag', 'sm_g
 TAG_A = {'row_tag', 'a_row_tag', 'irow_tag', 'a_irow_tag', 'sm_i_row_tag', 'sm_a_i_row_tag'}
 SLOTS = ['after_guard', 'after_exit', 'after_action', 'after_entry']
 
+POLICY_TABLE = {   # value stored after guard, exit, action, entry ('S' = source, 'T' = target)
+    'active_state_switch_after_entry': ['S', 'S', 'S', 'T'],
+    'active_state_switch_after_transition_action': ['S', 'S', 'T', 'T'],
+    'active_state_switch_after_exit': ['S', 'T', 'T', 'T'],
+    'active_state_switch_before_transition': ['T', 'T', 'T', 'T'],
+}
+
+def policy_of(F, f):
+    """the active-state-switch policy configured for the machine that owns this executor (typedef active_state_switching)"""
+    for c in reversed([c for c in f.d['ctx'] if 'c' in c]):
+        rec = F.rec_by_type(F.strs[c['t']])
+        if rec and 'active_state_switching' in rec['tds']:
+            return F.strs[rec['tds']['active_state_switching']].split('::')[-1]
+    return None
+
+def slot_returns(F, cn):
+    """'S' / 'T' when the called policy function returns its first / second parameter on every path"""
+    if not cn or cn['k'] != 'call' or 'fk' not in cn: return '?'
+    g = F.bykey.get(cn['fk'])
+    if g is None: return '?'
+    names = [p['n'] for p in g.d['params']]
+    vals = set()
+    for n in g.nodes:
+        if n and n['k'] == 'ret' and n['e']:
+            r = g.nodes[n['e']]
+            while r and r['k'] in ('icast', 'cast'): r = g.nodes[r['e']]
+            vals.add(names.index(r['n']) if r and r['k'] == 'ref' and r['n'] in names else -1)
+    if vals == {0}: return 'S'
+    if vals == {1}: return 'T'
+    return '?'
+
 def executors(F):
     """static member functions `execute` of back-end classes that carry a `transition_event` typedef"""
     for f in F.funcs:
@@ -167,6 +198,20 @@ def rows(F, R):
                     if not ok:
                         R.find('C02.order', f, 'sequence', 'taken path runs %s, required %s (guard? . switch . exit . switch . action? . switch . entry . switch, once each)' % (tk, expected), where=f.at(ret[-1][1]) if ret else None, instance=inst)
                     # C19: the four writes use the four policy slots in order (part of the sequence), each with (current,next)
+                    # C19.policies: what each slot call actually returns (source or target), resolved through the callee that the
+                    # call binds to (also when a policy inherits a slot from another policy), against the documented table
+                    pol = policy_of(F, f)
+                    if pol in POLICY_TABLE:
+                        rets = []
+                        for e in ev:
+                            if e[0] == 'W':
+                                an = f.nodes[e[1]]
+                                cn = f.nodes[an['rhs']] if an and an['k'] == 'asg' else None
+                                rets.append(slot_returns(F, cn))
+                        okp = rets == POLICY_TABLE[pol]
+                        R.ob('C19.policies', okp, {'func': f.q, 'policy': pol, 'slot_values': rets})
+                        if not okp:
+                            R.find('C19.policies', f, 'policy:' + pol, 'under %s the four writes store %s, the documented table is %s' % (pol, rets, POLICY_TABLE[pol]), instance=inst)
                     ws = [t[2:] for t in tk if t.startswith('W:')]
                     ok19 = ws == SLOTS
                     R.ob('C19.slots', ok19, {'func': f.q, 'writes': ws})
